@@ -8,6 +8,8 @@ ROOT = os.path.join(os.path.dirname(os.path.abspath(__file__)), "..", "seeded")
 ROUND = {"a": 1, "b": 1, "c": 2, "d": 2, "e": 3, "f": 3, "g": 4, "h": 4, "i": 5, "j": 5, "k": 6, "l": 6, "m": 7, "n": 7}
 NOTES = {
     "C07j": "not detected: needs x-goag-go-type custom item types, which are outside the driven dialect (DESIGN §12)",
+    "C06n": "not detected: needs a set Nullable holding a nil slice; the value domain of the JSON checks keeps set Nullables non-nil (DESIGN §11: nil encodes as null = the unset state)",
+    "C09n": "not detected: needs a header parameter named Content-Type next to a JSON body; on the unchanged tree that parameter already arrives set when the caller left it unset (the client's own Content-Type), so the shape is outside the driven dialect",
     "C01l": "not detected: needs a config file with maybe.type, custom wrapper types are outside the driven dialect (DESIGN §12)",
 }
 HOW = ("tools/confirm_seeded.sh: scratch worktree of /repo HEAD, demo/run.sh on the clean worktree, "
